@@ -73,11 +73,13 @@ pub struct RunOpts {
     pub trace: Option<(String, PathBuf)>,
     pub timeout_s: u64,
     pub verbose: u8,
+    /// binary to run instead of the default debug build (release-build passes)
+    pub bin: Option<PathBuf>,
 }
 
 impl RunOpts {
     pub fn new(coin: Coin, callback: Callback) -> RunOpts {
-        RunOpts { coin, start: None, end: None, verify: false, callback, threads: None, fsize: None, nofile: None, pin: false, inject: None, trace: None, timeout_s: std::env::var("VP_TIMEOUT").ok().and_then(|v| v.parse().ok()).unwrap_or(90), verbose: 0 }
+        RunOpts { coin, start: None, end: None, verify: false, callback, threads: None, fsize: None, nofile: None, pin: false, inject: None, trace: None, timeout_s: std::env::var("VP_TIMEOUT").ok().and_then(|v| v.parse().ok()).unwrap_or(90), verbose: 0, bin: None }
     }
 }
 
@@ -221,7 +223,7 @@ pub fn run_tool(datadir: &Path, dump: &Path, o: &RunOpts) -> Result<RunOut, Stri
 }
 
 fn run_tool_once(datadir: &Path, dump: &Path, o: &RunOpts) -> Result<RunOut, String> {
-    let bin = tool_bin();
+    let bin = o.bin.clone().unwrap_or_else(tool_bin);
     let mut args: Vec<String> = vec!["-d".into(), datadir.display().to_string(), "-c".into(), o.coin.cli().into()];
     if let Some(s) = o.start {
         args.push("-s".into());
